@@ -111,6 +111,10 @@ def programs(draw, kinds=("mutex",), max_actors=5, max_ops=10, max_mutex=3, max_
                     ops.append(["unlock", m])
                     if not mc:
                         ops.append(["owner", m])
+                if "assert" in kinds and draw(st.integers(0, 2)) == 0:
+                    # the observation asserted is the try_lock just issued (its index in this actor's program)
+                    ti = max(i for i, o in enumerate(ops) if o[0] == "try_lock")
+                    ops.append(["mc_assert", ti, draw(st.booleans())])
                 ops.append(["unlock_if", m, ntry])
                 ntry += 1
             elif k == "owner":
